@@ -36,6 +36,9 @@ def run(ctx):
     from .common import MultiAlias
     c01.r4(MultiAlias(ctx, {"C01.R4": "C15.R5"}))
     c08.r4(MultiAlias(ctx, {"C08.R4": "C15.R6"}))
+    ctx.rule("C15.R7", "K3", "(= C10.R2) the SCRIPT_NAME a worker reads from os.environ is the configured one: a reload undoes the old raw_env exports before the new configuration snapshots the environment")
+    from .c10 import env_reset_before_reload
+    env_reset_before_reload(ctx, "C15.R7")
 
 
 def _dict_literal(f):
